@@ -1,5 +1,5 @@
 SPECIFICATION Spec
-CONSTANT MaxN = 8
+CONSTANT MaxN = 6
 INVARIANT Refines
 INVARIANT RefinesObs
 INVARIANT DepthOne
